@@ -607,25 +607,60 @@ func runCheck(prop, tier string) int {
 	wseq := 0
 	var witnessFail []string
 	var samples []any
+	// witness replays are independent processes: run them concurrently, consume the outcomes in job order
+	type witTask struct {
+		file string
+		bin  string
+		mod  string
+		ro   *replayOutcome
+	}
+	witTasks := map[int]*witTask{}
 	for i, res := range results {
-		if res == nil || res.Reached == nil {
+		if res == nil || res.Reached == nil || res.Reached["end"] == nil {
 			continue
 		}
 		w := res.Reached["end"]
-		if w == nil {
-			continue
-		}
 		wseq++
 		file := filepath.Join(workDir, fmt.Sprintf("wit_%03d.replay", wseq))
 		rc := &replayCase{Job: jobs[i], Inputs: w.Inputs, Bytes: w.Bytes, Known: knownIDs, Observe: w.Observed, Expect: "reach end"}
 		writeReplayFile(file, prop, rc)
 		bin, berr := getBin(jobs[i].Module)
 		if berr != nil {
-			witnessFail = append(witnessFail, fmt.Sprintf("%s %v: native build failed", res.Harness, res.Params))
 			fmt.Fprintln(os.Stderr, berr)
+			witTasks[i] = &witTask{file: file}
 			continue
 		}
-		ro := runReplay(bin, file, jobs[i].Module)
+		witTasks[i] = &witTask{file: file, bin: bin, mod: jobs[i].Module}
+	}
+	{
+		var wg sync.WaitGroup
+		sem := make(chan struct{}, 12)
+		for _, t := range witTasks {
+			if t.bin == "" {
+				continue
+			}
+			wg.Add(1)
+			go func(t *witTask) {
+				defer wg.Done()
+				sem <- struct{}{}
+				t.ro = runReplay(t.bin, t.file, t.mod)
+				<-sem
+			}(t)
+		}
+		wg.Wait()
+	}
+	for i, res := range results {
+		t := witTasks[i]
+		if t == nil {
+			continue
+		}
+		w := res.Reached["end"]
+		file := t.file
+		if t.bin == "" {
+			witnessFail = append(witnessFail, fmt.Sprintf("%s %v: native build failed", res.Harness, res.Params))
+			continue
+		}
+		ro := t.ro
 		if ro.Reached["end"] && (ro.Kind == "ok" || ro.Kind == "known") && len(ro.Mismatch) == 0 {
 			nValidated++
 			if len(samples) < 3 {
